@@ -20,4 +20,4 @@ def install(world):
                 world.modular.add(c.fq)
 
 
-MODULES = ["tracker", "dest", "source", "routing", "mib", "filestore"]
+MODULES = ["tracker", "dest", "source", "routing", "mib", "filestore", "user"]
